@@ -526,6 +526,62 @@ def check_irregular(ctx, pair, decomps, ob):
     return len(ctx.failures) - n0
 
 
+def gen_stacked(ctx, pair):
+    """source cut into row/column chunks: once overlapping by one pixel (the hulls cover the source), once a plain partition"""
+    r = ctx.rng
+    h, w = pair["src"]["shape"]
+    H, W = pair["dst"]["shape"]
+    out = []
+    for overlap in (1, 0):
+        cut_r = sorted(r.sample(range(2, h - 1), 2)) if h >= 6 else [h // 2]
+        cut_c = [r.randint(2, w - 2)] if w >= 5 else []
+        rb = [0] + cut_r + [h]
+        cb = [0] + cut_c + [w]
+        crops = [[rb[k], min(h, rb[k + 1] + overlap), cb[q], min(w, cb[q + 1] + overlap)] for k in range(len(rb) - 1) for q in range(len(cb) - 1)]
+        hr, hc = r.randint(1, H - 1), r.randint(1, W - 1)
+        out.append({"src": pair["src"], "dst": pair["dst"], "data": [float(v) for v in data_of(pair).ravel()], "crops": crops,
+                    "rows": [[0, hr], [hr, H]], "cols": [[0, hc], [hc, W]], "overlap": overlap})
+    return out
+
+
+def check_stacked(ctx, pair, c, o, legacy, lines):
+    rp = {"pair": {k: pair[k] for k in ("tag", "src", "dst", "coef")}, "stacked": {k: c[k] for k in ("crops", "rows", "cols", "overlap")}}
+    ctx.count("legacy_stacked_overlap" if c["overlap"] else "legacy_stacked_partition")
+    if "error" in o:
+        ctx.add_failure("C09.legacy.stacked", "%s: parallel_gradient_search raised %s: %s" % (pair["tag"], o["error"], o.get("msg")), rp)
+        return
+    h, w = pair["src"]["shape"]
+    H, W = pair["dst"]["shape"]
+    if o["shape"] != [1, H, W]:
+        ctx.add_failure("C09.legacy.stacked", "%s: parallel_gradient_search returns shape %s for a %dx%d target cut into 2x2 blocks" % (pair["tag"], o["shape"], H, W), rp)
+        return
+    v = np.array(o["values"]).reshape(H, W)
+    L, P = exact_positions(pair)
+    eps = POS_TOL
+    cov = np.zeros((H, W), bool)
+    unc = np.ones((H, W), bool)
+    for a0, a1, b0, b1 in c["crops"]:
+        cov |= (L >= a0 + eps) & (L <= a1 - 1 - eps) & (P >= b0 + eps) & (P <= b1 - 1 - eps)
+        unc &= (L < a0 - eps) | (L > a1 - 1 + eps) | (P < b0 - eps) | (P > b1 - 1 + eps)
+    ctx.count("legacy_stacked_seam_pixels", int((~cov & ~unc).sum() + (unc & classify(L, P, h, w)[0]).sum()))
+    ref = np.array(legacy["bil"]).reshape(H, W) if "bil" in legacy else None
+    bad = (cov & np.isnan(v)) | (unc & ~np.isnan(v))
+    if ref is not None:
+        tol = 1e-10 * max(1.0, float(np.nanmax(np.abs(ref))) if np.isfinite(ref).any() else 1.0)
+        bad |= cov & ~np.isnan(v) & ~np.isnan(ref) & (np.abs(v - ref) > tol)
+    if bad.any():
+        i, j = map(int, np.argwhere(bad)[0])
+        ctx.add_failure("C09.legacy.stacked", "%s: parallel_gradient_search over source chunks %s: target pixel (%d,%d) at source (%.4f, %.4f) is %r; required: %s"
+                        % (pair["tag"], c["crops"], i, j, L[i, j], P[i, j], float(v[i, j]),
+                           ("the whole-source value %r" % (float(ref[i, j]) if ref is not None else None)) if cov[i, j] else "no value (no chunk's hull of centres contains it)"), rp)
+    for (r0, r1) in c["rows"]:
+        for (c0, c1) in c["cols"]:
+            lines.append("((%d, %d, %d), (%s, %s, %s, %s, %s, %s), (%s, %s), %s, [%s], (%d, %d, %d, %d), %s)" % (
+                h, w, W, flist(o["sx"]), flist(o["sy"]), flist(o["xl"]), flist(o["xp"]), flist(o["yl"]), flist(o["yp"]),
+                flist(o["dx"]), flist(o["dy"]), flist(c["data"]), "; ".join("(%d, %d, %d, %d)" % tuple(q) for q in c["crops"]),
+                r0, r1, c0, c1, flist(v[r0:r1, c0:c1].ravel())))
+
+
 def RUNS_differs_without_src_chunks(ref, ob, k):
     """True iff the same run WITHOUT source chunking (run 1: bilinear float64) already differs between the chunkings"""
     a, b = ref["runs"][1], ob["runs"][1]
@@ -754,16 +810,19 @@ def run(ctx):
                 "remainder block for chunk size 5 or 16; each pair is resampled in one subprocess per PYTROLL_CHUNK_SIZE (4096 = single chunk, 16, 5; "
                 "thorough adds 7, 3, 10) for nn/bilinear x float64/float32 x 2-D/3-D x chunked source data; pairs with different axis units (degrees <-> metres, "
                 "zero slicer buffer) with target sizes k*chunk+1; resample_blocks called directly with explicit irregular tuple-of-tuples target decompositions "
-                "(non-last chunks differ from the first, one-pixel-thick inner blocks) and irregular source chunkings, against the single block; plus synthetic direct calls of the Cython "
+                "(non-last chunks differ from the first, one-pixel-thick inner blocks) and irregular source chunkings, against the single block; the legacy "
+                "parallel_gradient_search over source chunks that overlap by one pixel / partition the source, target cut 2x2; plus synthetic direct calls of the Cython "
                 "kernels (affine, curvilinear, zero-gradient, inconsistent gradients, inf/NaN/huge targets, 1xN sources) and of the block interpolators "
                 "(ties, integers, edges, NaN, 1xN blocks). Non-trivial = the pair has target pixels both inside and outside the source hull of centres "
                 "/ the direct case has at least one valued and one unvalued pixel; distinct = distinct inputs")
     pairs = gen_pairs(ctx)
     direct = gen_direct(ctx)
     interp = gen_interp(ctx)
-    ntrace = ctx.n(3, 12)
+    ntrace = ctx.n(2, 12)
     irr = [k for k, p in enumerate(pairs) if p["tag"] in ("design", "units_longlat_to_laea", "units_laea_to_longlat") or p["tag"].startswith("rand")][:ctx.n(5, 20)]
     decomps = {k: gen_decomps(ctx, pairs[k]) for k in irr}
+    stk = [k for k, p in enumerate(pairs) if p["tag"] in ("design", "units_longlat_to_laea") or p["tag"].startswith("rand")][:ctx.n(3, 10)]
+    stacked = [(k, c) for k in stk for c in gen_stacked(ctx, pairs[k])]
     by_chunk = {}
     for k, p in enumerate(pairs):
         for cs in chunk_sizes_for(ctx, p):
@@ -776,6 +835,7 @@ def run(ctx):
             payload["interp"] = interp
             payload["blocks"] = [{"src": pairs[k]["src"], "dst": pairs[k]["dst"], "data": [float(v) for v in data_of(pairs[k]).ravel()],
                                   "decomps": decomps[k]} for k in irr]
+            payload["stacked"] = [{q: c[q] for q in ("src", "dst", "data", "crops", "rows", "cols")} for _, c in stacked]
             payload["legacy"] = [{"src": p["src"], "dst": p["dst"], "data": [float(v) for v in data_of(p).ravel()]} for p in pairs]
         return cs, ctx.impl("c09", payload, extra_env={"PYTROLL_CHUNK_SIZE": str(cs)}, timeout=1500)
 
@@ -791,19 +851,35 @@ def run(ctx):
         obs_by_chunk = {cs: results[cs]["resample"][by_chunk[cs].index(k)] for cs in chunk_sizes_for(ctx, p)}
         L, P = exact_positions(p)
         ins, outs = classify(L, P, *p["src"]["shape"])
+        cat = p["tag"].split("_")[0] if "_" in p["tag"] else ("random" if p["tag"].startswith("rand") else p["tag"])
         ctx.case(("pair", repr(p["src"]), repr(p["dst"])), nontrivial=bool(ins.any() and outs.any()),
-                 sample={"pair": p["tag"], "src": p["src"], "dst": p["dst"], "inside": int(ins.sum()), "outside": int(outs.sum())})
+                 sample={"pair_" + cat: p["tag"], "src": p["src"], "dst": p["dst"], "inside": int(ins.sum()), "outside": int(outs.sum()),
+                         "chunk_sizes": chunk_sizes_for(ctx, p)})
+        for cs in chunk_sizes_for(ctx, p):
+            ctx.count("chunk_size_%d" % cs)
         ctx.count("pair_%s_to_%s" % (p["src"]["proj"]["proj"], p["dst"]["proj"]["proj"]))
         check_pair(ctx, p, obs_by_chunk)
         check_legacy(ctx, p, results[BIG_CHUNK]["legacy"][k])
         if k in decomps:
             check_irregular(ctx, p, decomps[k], results[BIG_CHUNK]["blocks"][irr.index(k)])
+            for dc in decomps[k][1:]:
+                ctx.case(("irregular", p["tag"], repr(dc)), nontrivial=True,
+                         sample={"irregular_decomposition": p["tag"], "target_rows": dc["rows"], "target_cols": dc["cols"], "source_chunks": dc.get("src_chunks")})
         for cs, ob in obs_by_chunk.items():
             if "trace" in ob:
                 traces.append((p, cs, ob))
 
+    # ---------------- the legacy stacking path
+    L6 = []
+    for (k, c), o in zip(stacked, results[BIG_CHUNK]["stacked"]):
+        check_stacked(ctx, pairs[k], c, o, results[BIG_CHUNK]["legacy"][k], L6)
+        ctx.case(("stacked", pairs[k]["tag"], repr(c["crops"])), nontrivial=True,
+                 sample={"legacy_stacked": pairs[k]["tag"], "source_chunks": c["crops"], "target_rows": c["rows"], "target_cols": c["cols"],
+                         "overlap": c["overlap"]})
+
     # ---------------- correspondence: traced per-block calls of the resampler
     texts = []
+    texts += [(n, tx, sh, "parallel_gradient_search (legacy stack)") for n, tx, sh in coq_files("c09_stack", "stack_case", "chk_stack", L6)]
     L1, L2 = [], []
     for p, cs, ob in traces:
         H, W = p["dst"]["shape"]
@@ -960,6 +1036,12 @@ def replay(ctx, data):
     elif case.get("oracle") == "direct_src":
         o = ctx.impl("c09", {"direct": [case["case"]]})["direct"][0]
         source_vs_binary(ctx, case["case"], o)
+    elif case.get("stacked"):
+        p = case["pair"]
+        c = dict(case["stacked"], src=p["src"], dst=p["dst"], data=[float(v) for v in data_of(p).ravel()])
+        ob = ctx.impl("c09", {"stacked": [{q: c[q] for q in ("src", "dst", "data", "crops", "rows", "cols")}],
+                              "legacy": [{"src": p["src"], "dst": p["dst"], "data": c["data"]}]})
+        check_stacked(ctx, p, c, ob["stacked"][0], ob["legacy"][0], [])
     elif case.get("irregular"):
         p = case["pair"]
         H, W = p["dst"]["shape"]
